@@ -581,7 +581,8 @@ fn ref_compose(root: &Path, c: &ComposeCase) -> Result<RefOk, RefErr> {
             ..Default::default()
         })
         .map_err(|e| RefErr {
-            stage: "encoding",
+            // a composition that encodes but does not validate (only reported unless --no-validate)
+            stage: if format!("{e:?}").starts_with("ValidationFailure") { "validation" } else { "encoding" },
             needle: e.to_string(),
         })?;
     let binary = bytes.clone();
